@@ -55,7 +55,7 @@ class Facts:
         return [(f["name"], f["ty"]) for f in a["variants"][0]["fields"]]
 
     def impls_of(self, trait):
-        return [i for i in self.impls if i.get("trait") == trait]
+        return [i for i in self.impls if i.get("trait") == trait or (i.get("trait") or "").split("::")[-1] == trait]
 
     def impl_method(self, trait, self_ty, name):
         for i in self.impls:
@@ -163,8 +163,8 @@ class Anchor(Exception):
 
 # -------------------------------------------------------------------- HIR tree helpers
 CHILD_KEYS = ("f", "recv", "e", "a", "b", "l", "r", "cond", "then", "else", "scrut", "init", "body",
-              "expr", "idx", "base", "guard", "els", "value")
-LIST_KEYS = ("args", "elems", "stmts", "arms", "fields", "params")
+              "expr", "idx", "base", "guard", "els", "value", "pat", "sub", "lo", "hi", "mid")
+LIST_KEYS = ("args", "elems", "stmts", "arms", "fields", "params", "pats", "before", "after")
 
 
 def children(n):
@@ -244,22 +244,22 @@ def pat_variants(p):
     """Flatten a pattern into the list of resolved paths / literals it names at
     the top level (through `|`, `&`, bindings `x @ ..`)."""
     k = p.get("k")
-    if k == "Or":
+    if k == "POr":
         out = []
         for q in p["pats"]:
             out += pat_variants(q)
         return out
-    if k in ("Ref", "Box", "Deref"):
+    if k in ("PRef", "PBox", "PDeref"):
         return pat_variants(p["pat"])
-    if k == "Binding":
+    if k == "PBinding":
         if p.get("sub"):
             return pat_variants(p["sub"])
         return [("bind", p["name"])]
-    if k == "Wild":
+    if k == "PWild":
         return [("wild", None)]
-    if k in ("TupleStruct", "Struct"):
+    if k in ("PTupleStruct", "PStruct"):
         return [("path", p.get("res"))]
-    if k == "Expr":
+    if k == "PExpr":
         e = p["e"]
         if e["k"] == "Path":
             return [("path", e.get("res"))]
@@ -268,7 +268,7 @@ def pat_variants(p):
             if e.get("neg"):
                 v = -v
             return [("lit", v)]
-    if k == "Guard":
+    if k == "PGuard":
         return pat_variants(p["pat"])
     return [("other", k)]
 
@@ -307,7 +307,7 @@ def _method(self, self_ty, name, trait=None, trait_ref=None):
             continue
         if trait is None and trait_ref is None and i.get("trait") is not None:
             continue
-        if trait is not None and i.get("trait") != trait:
+        if trait is not None and i.get("trait") != trait and (i.get("trait") or "").split("::")[-1] != trait:
             continue
         if trait_ref is not None and not re.search(trait_ref, i.get("trait_ref") or ""):
             continue
@@ -320,3 +320,129 @@ def _method(self, self_ty, name, trait=None, trait_ref=None):
 
 
 Facts.method = _method
+
+
+def fmt_template(v):
+    """Decode a core::fmt::Arguments template byte string (dumped latin-1) into
+    [('lit', text) | ('arg', index)]."""
+    b = v.encode("latin-1")
+    i = 0
+    out = []
+    nxt = 0
+    while i < len(b):
+        n = b[i]
+        i += 1
+        if n == 0:
+            break
+        if n < 128:
+            out.append(("lit", b[i:i + n].decode("utf-8", "replace")))
+            i += n
+        elif n == 128:
+            ln = b[i] | (b[i + 1] << 8)
+            i += 2
+            out.append(("lit", b[i:i + ln].decode("utf-8", "replace")))
+            i += ln
+        else:
+            idx = None
+            if n & 1:
+                i += 4
+            if n & 2:
+                i += 2
+            if n & 4:
+                i += 2
+            if n & 8:
+                idx = b[i] | (b[i + 1] << 8)
+                i += 2
+            if idx is None:
+                idx = nxt
+            nxt = idx + 1
+            out.append(("arg", idx))
+    return out
+
+
+def format_pieces(e):
+    """All format templates (and plain literal format strings) inside expression e:
+    list of piece lists."""
+    out = []
+    for n in walk(e):
+        if n.get("k") == "Call":
+            c = callee_of(n) or ""
+            if c.startswith("core::fmt::Arguments") and c.endswith("::new") and n["args"]:
+                a = peel(n["args"][0])
+                if a.get("k") == "Lit" and a["lit"]["t"] == "bytestr":
+                    out.append(fmt_template(a["lit"]["v"]))
+            elif c.startswith("core::fmt::Arguments") and c.endswith("::from_str") and n["args"]:
+                a = peel(n["args"][0])
+                if a.get("k") == "Lit":
+                    out.append([("lit", a["lit"]["v"])])
+    return out
+
+
+def for_loops(root):
+    """Every `for PAT in ITER { BODY }` under root: dicts with pat, iter, body, node."""
+    for m in walk(root):
+        if m.get("k") == "Match" and m.get("src") == "ForLoopDesugar" and m["scrut"].get("k") == "Call" \
+                and short(m["scrut"]["f"].get("res") or "") == "into_iter":
+            it = m["scrut"]["args"][0]
+            loop = m["arms"][0]["body"]
+            while loop.get("k") in ("DropTemps", "Use") or (loop.get("k") == "Block" and not loop.get("stmts")):
+                loop = loop.get("e") or loop.get("expr")
+            if loop.get("k") != "Loop":
+                continue
+            inner = None
+            for st in loop["body"].get("stmts", []) + ([{"e": loop["body"]["expr"]}] if loop["body"].get("expr") else []):
+                e = st.get("e")
+                while e is not None and e.get("k") in ("DropTemps", "Use"):
+                    e = e["e"]
+                if e is not None and e.get("k") == "Match" and e.get("src") == "ForLoopDesugar":
+                    inner = e
+                    break
+            if inner is None:
+                continue
+            for a in inner["arms"]:
+                if short(a["pat"].get("res") or "") == "Some":
+                    p = a["pat"]
+                    pat = p["fields"][0]["pat"] if p.get("fields") else (p["pats"][0] if p.get("pats") else None)
+                    yield {"pat": pat, "iter": it, "body": a["body"], "node": m}
+
+
+def ekey(e):
+    """Canonical text of an expression modulo `&`, `*`, `.clone()`, `Rc::clone(&_)`."""
+    e = peel(e)
+    k = e.get("k")
+    if k == "Path":
+        if e.get("res_kind") == "Local":
+            return e["res"]
+        return short(e.get("res") or "?")
+    if k == "Field":
+        return ekey(e["e"]) + "." + e["name"]
+    if k == "MethodCall":
+        return ekey(e["recv"]) + "." + e["name"] + "(" + ",".join(ekey(a) for a in e["args"]) + ")"
+    if k == "Call":
+        c = callee_of(e) or ""
+        if short(c) == "clone" and len(e["args"]) == 1:
+            return ekey(e["args"][0])
+        return short(c) + "(" + ",".join(ekey(a) for a in e["args"]) + ")"
+    if k == "Lit":
+        return repr(e["lit"]["v"])
+    if k == "Index":
+        return ekey(e["e"]) + "[" + ekey(e["idx"]) + "]"
+    return "<" + str(k) + ">"
+
+
+def method_calls(root, resolved_paths=None, names=None):
+    """MethodCall / path-call nodes under root whose resolved callee is in resolved_paths (or name in names)."""
+    for n in walk(root):
+        if n.get("k") in ("MethodCall", "Call"):
+            c = callee_of(n)
+            if resolved_paths is not None and c in resolved_paths:
+                yield n
+            elif names is not None and n.get("k") == "MethodCall" and n["name"] in names:
+                yield n
+
+
+def call_recv_args(n):
+    """(receiver expr, [arg exprs]) for a method call written either as x.m(a) or T::m(x, a)."""
+    if n["k"] == "MethodCall":
+        return n["recv"], n["args"]
+    return (n["args"][0] if n["args"] else None), n["args"][1:]
